@@ -535,9 +535,9 @@ func newTarget(kind string) (storage, func()) {
 	panic("target " + kind)
 }
 
-// keyKind: 0 media type+digest+size, 1 digest, 2 digest per manifest/blob namespace
+// keyKind: 0 media type+digest+size, 1 digest, 2 digest per manifest/blob namespace, 3 file store
 func keyKind(kind string) string {
-	return map[string]string{"memory": "0", "file": "0", "oci": "1", "registry": "2"}[kind]
+	return map[string]string{"memory": "0", "file": "3", "oci": "1", "registry": "2"}[kind]
 }
 
 func callPack(sp *spec, p content.Pusher) (ocispec.Descriptor, error) {
@@ -696,19 +696,31 @@ func packCase(sp *spec) {
 
 	// pre-existing content
 	var storeEntries []string
+	seenEntry := map[string]bool{}
 	addEntry := func(d ocispec.Descriptor, data []byte) {
 		err := inner.Push(ctx, d, bytes.NewReader(data))
-		if err != nil && !errors.Is(err, errdef.ErrAlreadyExists) {
+		if err != nil && !errors.Is(err, errdef.ErrAlreadyExists) && !errors.Is(err, file.ErrDuplicateName) {
 			panic(fmt.Sprintf("prefill %v: %v", d, err))
 		}
-		storeEntries = append(storeEntries, fmt.Sprintf("%s:%s:%d", common.Hex(d.MediaType), common.Hex(string(d.Digest)), d.Size))
+		e := fmt.Sprintf("%s:%s:%d", common.Hex(d.MediaType), common.Hex(string(d.Digest)), d.Size)
+		if d.Annotations[ocispec.AnnotationTitle] != "" {
+			e += ":n" // a named file of the file store
+		}
+		if err == nil || !seenEntry[e] {
+			storeEntries = append(storeEntries, e)
+		}
+		seenEntry[e] = true
 	}
 	for _, p := range sp.Prefill {
 		addEntry(descOf(p.MediaType, []byte(p.Content)), []byte(p.Content))
 	}
 	backed := func(d ocispec.Descriptor) {
 		if c, ok := sp.Backed[string(d.Digest)]; ok {
-			addEntry(ocispec.Descriptor{MediaType: d.MediaType, Digest: d.Digest, Size: d.Size}, []byte(c))
+			e := ocispec.Descriptor{MediaType: d.MediaType, Digest: d.Digest, Size: d.Size}
+			if t := d.Annotations[ocispec.AnnotationTitle]; t != "" && sp.Target == "file" {
+				e.Annotations = map[string]string{ocispec.AnnotationTitle: t} // stored as a named file
+			}
+			addEntry(e, []byte(c))
 		}
 	}
 	for _, d := range sp.Layers {
